@@ -420,7 +420,7 @@ func TestCheck(t *testing.T) {
 		}
 		return
 	}
-	maxLen := mc.Pick(r, 4, 5)
+	maxLen := mc.Pick(r, 5, 6)
 	r.Rule = fmt.Sprintf("every sequence of request actions (alphabet %d) and of response actions (alphabet %d) of length 0..%d, simplest first, folded by the real routing.getSPOEReqActions/getSPOERespActions; plus every chain of <=%d real remedies (OAuth / API-key / basic authentication / two fixed responses) through the policy-mode runner.runOnRequest; non-trivial = sequence with >=2 non-no-op actions; distinct = by sequence", len(reqAlphabet), len(respAlphabet), maxLen, maxLen)
 	r.Assume("header edits of the statement = HeadersToSet maps; HeadersToRemove of GenerateRequest is not asserted",
 		"for response sequences mixing modifications and retries the statement fixes no winner: only provenance of the result is checked")
